@@ -283,8 +283,12 @@ func (g *Gen) function(fn *ssa.Function, ct *Contract) {
 		applied := 0
 		defer func(h *Clause) {
 			if applied == 0 {
-				// a hint is a proof step, not part of the property: when the local it names is gone (moved into a helper,
-				// inlined away) the postconditions are attempted without it rather than refusing the function
+				// an untagged hint is a proof step, not part of the property: when the local it names is gone (moved into
+				// a helper, inlined away) the postconditions are attempted without it rather than refusing the function.
+				// A hint tagged with a property carries a clause of that property and must stay expressible.
+				if len(h.Props) > 0 {
+					g.fail("hint [%s] (a clause of %s) could not be evaluated at any return site (unknown local?)", h.Label, strings.Join(h.Props, ","))
+				}
 				g.note("hint [%s] not used: a name it mentions exists at no return site", h.Label)
 			}
 		}(h)
@@ -424,6 +428,10 @@ func (g *Gen) hintAt(f *Frame, r retInfo, h *Clause, fn *ssa.Function, bindTop f
 		if note := g.bindRenamed(env, ct, []*Clause{h}, paramSet); note != "" {
 			g.notes = append(g.notes, fmt.Sprintf("hint %s: %s", h.Label, note))
 		}
+	}
+	if h.Apply != "" {
+		g.applyLemma(g.contract, h.Apply, env)
+		return "true", true
 	}
 	return env.trBool(h.Expr), true
 }
